@@ -1,6 +1,7 @@
 /- C18 line-protocol driver (core-only). -/
 import BV.C18.Model
 import BV.C18.Explain
+import BV.C18.Trickle
 namespace BV.C18.Driver
 open BV.C18
 
@@ -146,6 +147,14 @@ def handleHs2 : List String → String
 def handle : List String → String
   | "trace" :: rest => handleTrace rest
   | "hs2" :: rest => handleHs2 rest
+  | ["inv", n, k, d, b] =>
+    match n.toNat?, k.toNat?, d.toNat?, b.toNat? with
+    | some n, some k, some d, some b =>
+      if n > 5000 ∨ k > n ∨ k + d > n ∨ b > 40 then "bad-op" else
+      let batches := Trickle.scenario n k d
+      let sizes := batches.map (fun c => toString c.length)
+      s!"blocks={b} tx={joinOrDash sizes} sum={Trickle.checksum batches.flatten}"
+    | _, _, _, _ => "bad-op"
   | ["racerun", _, _, _] =>
     -- the model has no data: a race-detector run of the harness must be clean and agree
     "build=ok races=0 mism=0"
